@@ -18,7 +18,7 @@ ASSUMPTIONS = ["per-run wall cap 60 s stands for 'terminates'", "parameter menus
 THOROUGH_CAP_S = 2400.0
 
 MENU = dict(r1=[700, 5000], b1=[0, 3], p=[1, 10], md=[1400, 60000], r2=[50, 1000], b2=[0], ma=[0, 50000], pt=[0, 1000], d=[0, 9000],
-            ms=[1], bs=[0], diff=[0], sj=[0], ss=[1], c=[2, 16])
+            ms=[1], bs=[0], diff=[0], sj=[0], ss=[1], c=[1, 16])
 
 
 def settings(maxdev):
